@@ -1226,10 +1226,8 @@ func ruleENOdometer(p *Prog, r *Reporter) {
 				// wrap: only for positions > 0, not below the last fact, and the cursor moves back by exactly one in the same step
 				posGuard := false
 				for _, g := range gs {
-					if bo, ok := g.cond.(*ssa.BinOp); ok && bo.Op == token.GTR && bo.X == ssa.Value(iphi) && g.val {
-						if z, isZ := constInt(bo.Y); isZ && z == 0 {
-							posGuard = true
-						}
+					if positiveGuard(g, iphi) == 1 {
+						posGuard = true
 					}
 				}
 				curDec := 0
@@ -1279,7 +1277,7 @@ func ruleENOdometer(p *Prog, r *Reporter) {
 		if k.Value.String() == "false" {
 			ok := false
 			for _, g := range guardsOf(ret.Block()) {
-				if bo, isB := g.cond.(*ssa.BinOp); isB && bo.Op == token.GTR && bo.X == ssa.Value(iphi) && !g.val {
+				if positiveGuard(g, iphi) == -1 {
 					ok = true
 				}
 			}
@@ -2137,4 +2135,30 @@ func cmpTests(v *ssa.Call) []*ssa.BasicBlock {
 		}
 	}
 	return out
+}
+
+// positiveGuard: does guard g say x > 0 (1) or x <= 0 (-1) in one of its spellings
+// (x > 0, x >= 1, !(x <= 0), !(x < 1), and the negations)? 0 if it says neither.
+func positiveGuard(g guard, x ssa.Value) int {
+	bo, ok := g.cond.(*ssa.BinOp)
+	if !ok || bo.X != x {
+		return 0
+	}
+	k, isK := constInt(bo.Y)
+	if !isK {
+		return 0
+	}
+	res := 0
+	switch {
+	case bo.Op == token.GTR && k == 0, bo.Op == token.GEQ && k == 1:
+		res = 1
+	case bo.Op == token.LEQ && k == 0, bo.Op == token.LSS && k == 1:
+		res = -1
+	default:
+		return 0
+	}
+	if !g.val {
+		res = -res
+	}
+	return res
 }
